@@ -7,6 +7,7 @@ CONSTANTS
   TagLen = 2
   MinInitLen = 2
   MsgSize = 2
+  Classes = {"custom"}
   Mode = "pm"
   RotAt = 1000
   StartN = 996
